@@ -89,11 +89,11 @@ PemOk(e, F) ==
 Get(p) == [method |-> "GET", path |-> p]
 ResKind(e) == [class |-> e.res.class, kind |-> IF e.res.class = "err" THEN e.res.kind ELSE "-"]
 ReqOk(e) ==
-  CASE e.client = "ribbit"  -> e.cmds = <<e.ep \o CRLF>> /\ e.res.class = "ok" /\ e.res.same
+  CASE e.client = "ribbit"  -> Len(e.cmds) = 1 /\ IsLine(e.cmds[1], e.ep) /\ e.res.class = "ok" /\ e.res.same
     [] e.client = "tact"    -> e.reqs = <<Get(TactPath(e.ep))>> /\ ResKind(e) = TactClass(e.code, e.body = "ok")
     [] e.client = "unified" ->
          IF ~ValidEndpoint(e.ep) THEN e.reqs = <<>> /\ e.cmds = <<>> /\ ResKind(e) = [class |-> "err", kind |-> "InvalidEndpoint"]
-         ELSE IF TcpOnly(e.ep) THEN e.reqs = <<>> /\ e.cmds = <<e.ep \o CRLF>> /\ e.res.class = "ok"
+         ELSE IF TcpOnly(e.ep) THEN e.reqs = <<>> /\ Len(e.cmds) = 1 /\ IsLine(e.cmds[1], e.ep) /\ e.res.class = "ok"
          ELSE Len(e.reqs) >= 1 /\ e.reqs[1] = Get(TactPath(e.ep)) /\ e.res.class = "ok"
 
 \* --------------------------------------------------------------------------- downloads
